@@ -530,9 +530,17 @@ func (e *Exec) evalCall(env *Env, x *ast.CallExpr) Val {
 		}
 		return vRef(raw).withT(mt.Elem())
 	case "sel":
-		return vInt(sx("select", arg(0).t(), arg(1).t()))
+		m := arg(0)
+		if m.K == KSMap {
+			return vStr(sx("select", m.t(), arg(1).t()))
+		}
+		return vInt(sx("select", m.t(), arg(1).t()))
 	case "upd":
-		return Val{K: KMap, A: []string{sx("store", arg(0).t(), arg(1).t(), arg(2).t())}}
+		m := arg(0)
+		if m.K == KSMap {
+			return Val{K: KSMap, A: []string{sx("store", m.t(), arg(1).t(), asStr(arg(2)))}}
+		}
+		return Val{K: KMap, A: []string{sx("store", m.t(), arg(1).t(), arg(2).t())}}
 	case "typeof":
 		return vInt(sx("typeof", arg(0).t()))
 	case "ffmt":
@@ -709,6 +717,8 @@ func (e *Exec) specType(pkgPath, src string) (Kind, types.Type) {
 		return KUnit, nil
 	case "map":
 		return KMap, nil
+	case "smap":
+		return KSMap, nil
 	}
 	var pk *types.Package
 	if sp := e.P.SPkgs[pkgPath]; sp != nil {
